@@ -447,3 +447,148 @@ def _poison_lambdas(src):
             return node
     tree = ast.fix_missing_locations(T().visit(tree))
     return ast.unparse(tree)
+
+
+# ------------------------------------------------------------------------------ the setters and the round-trip lemma
+def _conv_constants():
+    """the float literals of prec_to_dps / dps_to_prec, read from /repo's source after matching the expected expression shape
+    (max(1, int(round(int(n)/C)-1)) and max(1, int(round((int(n)+1)*C)))); None when the shape differs"""
+    from mpmath.libmp import libmpf
+    out = []
+    for fn, shape in ((libmpf.prec_to_dps, 'max(1, int(round(int(n) / C) - 1))'), (libmpf.dps_to_prec, 'max(1, int(round((int(n) + 1) * C)))')):
+        node, info = srcmap.lookup(fn)
+        ret = [s for s in node.body if isinstance(s, ast.Return)]
+        if len(ret) != 1 or len([s for s in node.body if not (isinstance(s, ast.Expr) and isinstance(s.value, ast.Constant))]) != 1:
+            return None
+        consts = [c.value for c in ast.walk(ret[0].value) if isinstance(c, ast.Constant) and isinstance(c.value, float)]
+        if len(consts) != 1:
+            return None
+        templ = ast.dump(ast.parse(shape.replace('C', repr(consts[0])), mode='eval').body)
+        if ast.dump(ret[0].value) != templ:
+            return None
+        out.append(consts[0])
+    return out
+
+
+def lemma_roundtrip(p):
+    """prec_to_dps(dps_to_prec(d)) == d for 1 <= d <= 2^20: the fact the C11 abstraction uses for its uninterpreted
+    conversion functions.  Decided by z3 (QF_LIRA) over the standard model of IEEE double arithmetic -- fl(a op b) lies within
+    relative 2^-53 of the exact result, int -> float exact below 2^53, round() returns an integer within 1/2 -- with the
+    constants read from /repo's source.  A failure of this lemma is not a violation of the property: it only means the
+    abstraction may not be used, so the outcome is 'inconclusive'."""
+    from fractions import Fraction
+    cs = _conv_constants()
+    res = dict(status='inconclusive', detail='', stats=dict(queries=0, solver_s=0.0, forks=0, merges=0, calls=0, funcs={}, cov={}, extra={}))
+    for fn in ('prec_to_dps', 'dps_to_prec'):
+        from mpmath.libmp import libmpf
+        node, info = srcmap.lookup(getattr(libmpf, fn))
+        res['stats']['funcs'][info['name']] = info
+    if cs is None:
+        res['detail'] = 'Unsupported: conversion functions do not have the expected expression shape'
+        return res
+    c1, c2 = Fraction(cs[0]), Fraction(cs[1])
+    import time
+    D = 1 << 20
+    d, pp, q = z3.Ints('d p q')
+    x1, x2 = z3.Reals('x1 x2')
+    R = lambda f: z3.RealVal(str(f))
+    delta = Fraction(1, 1 << 29)           # >= 2^-53 * (2^20+1) * 4 : absolute rounding error of either float operation here
+    s = z3.Solver()
+    s.set('timeout', 60000)
+    s.add(d >= 1, d <= D)
+    # p = dps_to_prec(d) = max(1, round(fl((d+1)*c2)))
+    s.add(x1 >= (z3.ToReal(d) + 1) * R(c2) - R(delta), x1 <= (z3.ToReal(d) + 1) * R(c2) + R(delta))
+    pr = z3.Int('pr')
+    s.add(z3.ToReal(pr) - x1 <= R(Fraction(1, 2)), x1 - z3.ToReal(pr) <= R(Fraction(1, 2)))
+    s.add(pp == z3.If(pr < 1, 1, pr))
+    # q = prec_to_dps(p) = max(1, round(fl(p / c1)) - 1)
+    s.add(x2 >= z3.ToReal(pp) * R(1 / c1) - R(delta), x2 <= z3.ToReal(pp) * R(1 / c1) + R(delta))
+    qr = z3.Int('qr')
+    s.add(z3.ToReal(qr) - x2 <= R(Fraction(1, 2)), x2 - z3.ToReal(qr) <= R(Fraction(1, 2)))
+    s.add(q == z3.If(qr - 1 < 1, 1, qr - 1))
+    s.push()
+    s.add(q != d)
+    t0 = time.time()
+    r = s.check()
+    res['stats']['queries'] += 1
+    s.pop()
+    # reachability witness: the constraints themselves are satisfiable
+    r2 = s.check()
+    res['stats']['queries'] += 1
+    res['stats']['solver_s'] = round(time.time() - t0, 3)
+    if str(r) == 'unsat' and str(r2) == 'sat':
+        res['status'] = 'proved'
+        m = s.model()
+        res['witness'] = {'d': m[d].as_long(), 'p': m[pp].as_long()}
+    else:
+        res['detail'] = 'round-trip lemma not established over the relaxed float model (%s / %s): the C11 abstraction of the conversion functions is not justified on this tree' % (r, r2)
+    return res
+
+
+def lemma_roundtrip_concrete(p, m):
+    return None, 'UNCONFIRMED (lemma obligations never report violations)'
+
+
+def setters(p):
+    """ctx.prec = n / ctx.dps = n for a symbolic n >= 1 (mp and iv): afterwards prec == n, dps == prec_to_dps(n)
+    (resp. dps == n, prec == dps_to_prec(n)) and every copy of the precision the context keeps (mp: _prec and
+    _prec_rounding[0], which the number types' operators read through _ctxdata; iv: _prec[0]) agrees; the rounding mode is
+    untouched.  The conversion functions are uninterpreted (they *are* the documented formulas)."""
+    kind, which = p['ctx'], p['which']
+    ctx = get_ctx(kind)
+    PD, DP = ufs()
+    ob = Ob(W, models=make_models(PD, DP), timeout_s=p.get('_t', 30))
+    n = ob.int('n', 1, PMAX)
+    P0 = ob.int('P0', 1, PMAX)
+    D0 = ob.int('D0', 1, PMAX)
+    heap = {}
+    if kind == 'mp':
+        heap[(id(ctx), '_prec')] = (ctx, P0)
+        heap[(id(ctx), '_dps')] = (ctx, D0)
+        heap[(id(ctx._prec_rounding), ('item', 0))] = (ctx._prec_rounding, P0)
+    else:
+        heap[(id(ctx._prec), ('item', 0))] = (ctx._prec, P0)
+        heap[(id(ctx), '_dps')] = (ctx, D0)
+    prop = type(ctx).__dict__.get(which) or [k.__dict__[which] for k in type(ctx).__mro__ if which in k.__dict__][0]
+    outs = ob.run(prop.fset, [ctx, n], {}, heap=heap)
+    want_prec = n.t if which == 'prec' else DP(n.t)
+    want_dps = PD(n.t) if which == 'prec' else n.t
+
+    def good(val, st):
+        def rd(obj, key):
+            h = st.heap.get((id(obj), key))
+            return None if h is None else h[1]
+        vals = []
+        if kind == 'mp':
+            vals = [(rd(ctx, '_prec'), want_prec), (rd(ctx._prec_rounding, ('item', 0)), want_prec), (rd(ctx, '_dps'), want_dps)]
+            if (id(ctx._prec_rounding), ('item', 1)) in st.heap or ctx.mpf._ctxdata[2] is not ctx._prec_rounding or ctx.mpc._ctxdata[2] is not ctx._prec_rounding:
+                return False
+        else:
+            vals = [(rd(ctx._prec, ('item', 0)), want_prec), (rd(ctx, '_dps'), want_dps)]
+            if ctx.mpf._ctxdata[2] is not ctx._prec:
+                return False
+        gs = []
+        for cur, want in vals:
+            if not isinstance(cur, (SInt, int)):
+                return False
+            gs.append(zt(cur) == want)
+        # the getters return the slots
+        return [z3.And(gs)]
+    res = ob.prove(outs, good)
+    return finish(ob, res)
+
+
+def setters_concrete(p, m):
+    from mpmath.libmp import prec_to_dps, dps_to_prec
+    ctx = get_ctx(p['ctx'])
+    n = m.get('n', 1)
+    old = ctx.prec
+    try:
+        setattr(ctx, p['which'], n)
+        want = (n, prec_to_dps(n)) if p['which'] == 'prec' else (dps_to_prec(n), n)
+        opprec = ctx.mpf._ctxdata[2][0]
+        got = (ctx.prec, ctx.dps)
+        ok = got == want and opprec == want[0]
+        return ok, '%s.%s = %d gives (prec, dps) = %r, precision used by operators %r; documented: %r' % (p['ctx'], p['which'], n, got, opprec, want)
+    finally:
+        ctx.prec = old
